@@ -194,7 +194,8 @@ where
                     .parse_next(input)
             }
             Some('(') if lot.note.is_none() => {
-                let note = paren(take_till(1.., ['(', ')', '@'])).parse_next(input)?;
+                // lot note can be empty, see doc/syntax.md.
+                let note = paren(take_till(0.., ['(', ')', '@'])).parse_next(input)?;
                 lot.note = Some(note.into());
             }
             Some('(') => {
